@@ -878,12 +878,17 @@ namespace jsoncons {
                                 ++i;
                                 break;
                             case '/':
+                            case '?':
+                            case '#': // the authority ends at the next '/', '?' or '#' (RFC 3986 3.2)
                                 userinfo_part = std::make_pair(start,start);
                                 host_part = std::make_pair(start,i);
                                 port_part = std::make_pair(i,i);
                                 state = parse_state::expect_path;
                                 start = i;
-                                ++i;
+                                if (c == '/')
+                                {
+                                    ++i;
+                                }
                                 break;
                             default:
                                 ++i;
@@ -905,6 +910,8 @@ namespace jsoncons {
                                 ++i;
                                 break;
                             case '/':
+                            case '?':
+                            case '#':
                             {
                                 if (!validate_host(string_view{str.data() + start, colon_pos-start}))
                                 {
@@ -921,7 +928,10 @@ namespace jsoncons {
                                 port_part = std::make_pair(colon_pos+1,i);
                                 state = parse_state::expect_path;
                                 start = i;
-                                ++i;
+                                if (c == '/')
+                                {
+                                    ++i;
+                                }
                                 break;
                             }
                             default:
@@ -943,6 +953,23 @@ namespace jsoncons {
                                 start = i+1;
                                 ++i;
                                 break;
+                            case '/':
+                            case '?':
+                            case '#':
+                                if (!validate_host(string_view{str.data() + start, i-start}))
+                                {
+                                    ec = uri_errc::invalid_character_in_host;
+                                    return uri{};
+                                }
+                                host_part = std::make_pair(start,i);
+                                port_part = std::make_pair(i,i);
+                                state = parse_state::expect_path;
+                                start = i;
+                                if (c == '/')
+                                {
+                                    ++i;
+                                }
+                                break;
                             default:
                                 ++i;
                                 break;
@@ -952,6 +979,8 @@ namespace jsoncons {
                         switch (c)
                         {
                             case '/':
+                            case '?':
+                            case '#':
                                 if (!validate_port(string_view{str.data() + start, i-start}))
                                 {
                                     ec = uri_errc::invalid_port;
@@ -960,7 +989,10 @@ namespace jsoncons {
                                 port_part = std::make_pair(start,i);
                                 state = parse_state::expect_path;
                                 start = i;
-                                ++i;
+                                if (c == '/')
+                                {
+                                    ++i;
+                                }
                                 break;
                             default:
                                 ++i;
